@@ -96,13 +96,19 @@ def cases(run: Run):
             dims = []
             while sum(dims) < target:
                 dims.append(min(rng.randint(1, 4), target - sum(dims)))
-        tuning = rng.choice(["gamma2", "gamma2", "half", "default", "kappa0"])
+        tuning = rng.choice(["gamma2", "gamma2", "half", "default", "kappa0", "tight", "tight"])
         if tuning == "gamma2":
             alpha, kappa, beta = Fraction(1), Fraction(4 - n), Fraction(2)
         elif tuning == "half":
             alpha, kappa, beta = Fraction(1, 2), Fraction(16 - n), Fraction(rng.choice([0, 2]))
         elif tuning == "kappa0":
             alpha, kappa, beta = Fraction(1), Fraction(0), Fraction(2)
+        elif tuning == "tight":
+            # legal tunings with a very small spread: alpha below the default, or alpha = 1e-3 with n + kappa below one
+            if rng.random() < 0.5:
+                alpha, kappa, beta = Fraction(rng.choice([5, 4, 2]), 10000), None, Fraction(2)
+            else:
+                alpha, kappa, beta = Fraction(1, 1000), Fraction(1, 2) - n, Fraction(2)
         else:
             alpha, kappa, beta = Fraction(1, 1000), None, Fraction(2)
         steps = rng.randint(1, 4)
@@ -305,8 +311,12 @@ def oracle(run: Run, c, impl, ref):
         return [("ukf:raises", f"{impl[1]}")]
     i = impl[1]
     fails = []
-    base = 1e-6 if c["tuning"] == "default" else 1e-9
-    if abs(i["w"]["mean_sum"] - 1.0) > 1e-9:
+    base = 1e-6 if c["tuning"] == "default" else 1e-5 if c["tuning"] == "tight" else 1e-9
+    # the centre weight is lambda / (n + lambda): -1.2e7 for alpha = 4e-4, and the 2n+1 terms then sum to one only to |w0| x machine epsilon
+    # (2.1e-9 seen for alpha = 1/2500 on the clean tree - a false alarm of the fixed 1e-9 this line used to have)
+    nn = c["n"]
+    lam_ = float(c["alpha"]) ** 2 * (nn + (float(c["kappa"]) if c["kappa"] is not None else 3 - nn)) - nn
+    if abs(i["w"]["mean_sum"] - 1.0) > 1e-9 + 50 * abs(lam_ / (nn + lam_)) * 2.3e-16:
         fails.append(("weights", f"sigma-point weights sum to {i['w']['mean_sum']}"))
     cond_acc = 1.0
     for k, (st, r) in enumerate(zip(i["steps"], ref)):
@@ -409,7 +419,7 @@ def run_cases(run: Run, cs):
                     continue
                 parts = [[Fraction(t) for t in p.split()] for p in mo.split("|")]
                 st = i[1]["steps"][k]
-                tol = 1e-6 if c["tuning"] == "default" else 1e-9
+                tol = 1e-6 if c["tuning"] == "default" else 1e-5 if c["tuning"] == "tight" else 1e-9
                 for key, vals in zip(("pred_x", "pred_p", "S", "C", "K", "est_x", "est_p"), parts):
                     got = np.asarray(st[key], dtype=float).reshape(-1)
                     want = np.array([float(v) for v in vals])
